@@ -877,6 +877,12 @@ void mmd_assign_line_type(mmd_engine * e, token * line) {
 			break;
 	}
 
+	if ((line->type == LINE_LIST_BULLETED || line->type == LINE_LIST_ENUMERATED) &&
+			line->child->type == NON_INDENT_SPACE) {
+		// Up to three spaces may precede a list marker -- they are not part of the item
+		token_remove_first_child(line);
+	}
+
 	if ((line->type == LINE_PLAIN) &&
 			!(e->extensions & EXT_COMPATIBILITY)) {
 		// Check if this is a potential table line
